@@ -24,3 +24,11 @@ NOT_APPLICABLE = {
     "C16": "not yet built",
 }
 NOTES = "See DESIGN.md. Exit 2 = UNDECIDED (lost anchor / construct outside the verifier's subset), never on the unchanged tree."
+for _p in ("C04", "C05", "C07", "C08", "C17", "C18"):
+    PROPS[_p]["units"] = PROPS[_p]["units"] + ["main"]
+for _p in ("C02", "C04", "C07", "C17"):
+    PROPS[_p]["units"] = PROPS[_p]["units"] + ["context"]
+PROPS["C15"] = {"units": ["context", "main", "generate"], "level": "proof", "assumptions": []}
+PROPS["C16"] = {"units": ["context", "main", "generate"], "level": "proof", "assumptions": []}
+for _k in ("C15", "C16"):
+    NOT_APPLICABLE.pop(_k, None)
